@@ -175,7 +175,7 @@ def gen_cases(rng, tier):
     # ---------------- live
     if tier != "search":
         cases.extend(_live_cases(rng, tier))
-    return cases
+    return _assign_forms(cases)
 
 
 def _random_sim(rng):
@@ -220,8 +220,9 @@ def _random_sim(rng):
     return c
 
 
-HIST_REQS = [["nice", 5], ["nice", -3], ["ionice", 2, 4], ["ionice", 3, None], ["aff", [1, 0]], ["aff", []], ["aff", [99]],
-             ["rlimit", 3, [5, INF]], ["rlimit", 7, [10, 20]], ["rlimit_scalar", 4, 5]]
+HIST_REQS = [["nice", 5], ["nice", 0], ["ionice", 2, 4], ["ionice", 0, None], ["aff", [1, 0]], ["aff", []], ["rlimit", 3, [5, INF]],
+             ["rlimit", 4, [0, 0]], ["ionice", 2, 0], ["nice", -3], ["ionice", 3, None], ["aff", [99]], ["rlimit", 7, [10, 20]],
+             ["rlimit_scalar", 4, 5], ["rlimit_scalar", 4, 0]]
 T0, T1 = 5000, 9000          # start time of the process the handle is created for / of the process that recycled the pid
 
 
@@ -237,7 +238,7 @@ def _hist(handle, reap, state, req, pre_gone=False):
 
 def _hist_cases(rng, tier):
     out = []
-    reqs = HIST_REQS if tier != "quick" else [HIST_REQS[i] for i in (0, 2, 4, 5, 7)]
+    reqs = HIST_REQS if tier != "quick" else HIST_REQS[:8]
     for req in reqs:
         for reap in ("none", "wait", "poll", "communicate", "with"):
             for state in ("gone", "recycled"):
@@ -403,6 +404,67 @@ def _live_cases(rng, tier):
     return out
 
 
+# ------------------------------------------------------------------ call forms
+METHOD = {"nice": ("nice", "MNice", ["value"]), "ionice": ("ionice", "MIonice", ["ioclass", "value"]),
+          "aff": ("cpu_affinity", "MAffinity", ["cpus"]), "rlimit": ("rlimit", "MRlimit", ["resource", "limits"]),
+          "rlimit_scalar": ("rlimit", "MRlimit", ["resource", "limits"])}
+FORMS = ["pos", "kw", "mixed", "kwrev", "omit"]
+
+
+def mk_call(req, form):
+    """(python method name, Coq method, positional values, keyword (name, value) pairs) of a request in a call form:
+    pos = all positional (None spelled out); kw = all keywords; kwrev = keywords in reverse order; mixed = first positional, rest
+    keywords; omit = arguments that are None are left out (the others positional, after a gap as keywords)."""
+    meth, cm, names = METHOD[req[0]]
+    vals = list(req[1:])
+    if form == "pos":
+        pos, kw = vals, []
+    elif form == "kw":
+        pos, kw = [], list(zip(names, vals))
+    elif form == "kwrev":
+        pos, kw = [], list(zip(names, vals))[::-1]
+    elif form == "mixed":
+        pos, kw = vals[:1], list(zip(names[1:], vals[1:]))
+    elif form == "omit":
+        pos, kw, gap = [], [], False
+        for n, v in zip(names, vals):
+            if v is None and n != "resource":
+                gap = True
+            elif gap:
+                kw.append((n, v))
+            else:
+                pos.append(v)
+    else:
+        raise ValueError(form)
+    return meth, cm, pos, kw
+
+
+def _assign_forms(cases):
+    """the call form is a dimension of every request: forms are dealt round-robin per (kind, class) so that each class meets all"""
+    seen = {}
+    for c in cases:
+        if "req" in c and "form" not in c:
+            key = (c["kind"], c["cls"])
+            i = seen.get(key, len(seen))          # classes start at different offsets
+            c["form"] = FORMS[i % len(FORMS)]
+            seen[key] = i + 1
+    return cases
+
+
+def _pyval(v):
+    if v is None:
+        return "PNone"
+    if isinstance(v, int):
+        return "(PInt %s)" % G.z(v)
+    return "(PList %s)" % _zl(v)
+
+
+def _call_term(case):
+    meth, cm, pos, kw = mk_call(case["req"], case.get("form", "pos"))
+    return "%s (Build_call %s %s)" % (cm, G.lst([_pyval(v) for v in pos]),
+                                      G.lst(['("%s"%%string, %s)' % (n, _pyval(v)) for n, v in kw]))
+
+
 # ------------------------------------------------------------------ Coq terms
 def _opt(x, f):
     return "None" if x is None else "(Some %s)" % f(x)
@@ -463,8 +525,8 @@ def coq_term(case):
                                                      {"none": "NotReaped", "wait": "ByWait", "poll": "ByPoll", "communicate": "ByCommunicate",
                                                       "with": "ByWith"}[case["reap"]])
         occ = {"gone": "None", "recycled": "(Some %s)" % G.z(T1), "same": "(Some %s)" % G.z(T0)}[case["state"]]
-        return "run_hist %s %s %s %s" % (h, occ, k, _req_term(case["req"]))
-    return "run_case %s %s %s" % (k, G.z(case["pid"]), _req_term(case["req"]))
+        return "run_hist_c %s %s %s %s" % (h, occ, k, _call_term(case))
+    return "run_case_c %s %s %s" % (k, G.z(case["pid"]), _call_term(case))
 
 
 def _expand(case, dump):
@@ -547,19 +609,15 @@ def _out(fn, conv, pidmap=None):
     return Val(conv(r))
 
 
-def _call(p, req):
-    k = req[0]
-    if k == "nice":
-        return lambda: p.nice(req[1])
-    if k == "ionice":
-        return lambda: p.ionice(req[1], req[2])
-    if k == "aff":
-        return lambda: p.cpu_affinity(req[1])
-    if k == "rlimit":
-        return lambda: p.rlimit(req[1], None if req[2] is None else tuple(req[2]))
-    if k == "rlimit_scalar":
-        return lambda: p.rlimit(req[1], req[2])
-    raise ValueError(k)
+def _call(p, req, form="pos"):
+    meth, _, pos, kw = mk_call(req, form)
+
+    def conv(name, v):
+        return tuple(v) if name == "limits" and isinstance(v, list) else v
+    names = METHOD[req[0]][2]
+    args = [conv(n, v) for n, v in zip(names, pos)]
+    kwargs = {n: conv(n, v) for n, v in kw}
+    return lambda: getattr(p, meth)(*args, **kwargs)
 
 
 def _get_call(p, req):
@@ -694,7 +752,7 @@ def _run_hist(case, coq, env):
         try:
             for m, n in saved:
                 setattr(m, n, counted(n) if n in ("setpriority", "proc_ioprio_set", "proc_cpu_affinity_set", "prlimit") else getattr(sk, n))
-            res = _out(_call(p, case["req"]), _conv, {pid: case["pid"]})
+            res = _out(_call(p, case["req"], case.get("form", "pos")), _conv, {pid: case["pid"]})
         finally:
             for m, n, f in orig:
                 setattr(m, n, f)
@@ -736,7 +794,7 @@ def _run_sim(case, coq, env):
         p = psutil.Process(case["pid"])
         elig = _out(p._proc._get_eligible_cpus, _conv)
         try:
-            res = _out(_call(p, case["req"]), _conv)
+            res = _out(_call(p, case["req"], case.get("form", "pos")), _conv)
         except S.OutOfModel as e:
             return T("Skip", str(e))
         got = _out(_get_call(p, case["req"]), _conv)
@@ -829,7 +887,7 @@ def _run_live2(case, req, res_idx, child, real):
     p = psutil.Process(child.pid)
     pidmap = {real[0]: case["procs"][0]["pid"], real[1]: case["procs"][1]["pid"]}
     elig = _out(p._proc._get_eligible_cpus, _conv, pidmap)
-    res = _out(_call(p, req), _conv, pidmap)
+    res = _out(_call(p, req, case.get("form", "pos")), _conv, pidmap)
     got = _out(_get_call(p, req), _conv, pidmap)
     dump = []
     for pid, st, b in zip(real, case["procs"], before):
